@@ -18,7 +18,7 @@ func init() { register(&Spec{ID: "C02", Targets: []load.Target{load.Linux}, Run:
 
 func runC02(c *core.Ctx) {
 	runFixtures(c, "bounds", "drop")
-	c.Explain("Bytes, offsets and EOF timing are values and not decidable statically. Decided mechanisms: (R02.1) access-mode capability: no method of the read-only handle wrapper reaches a content mutator (blob.Set/Grow/Truncate), no method of the write-only wrapper reaches a content reader (blob.View/Slice), over the static call graph — a read-only handle can never change contents, a write-only handle can never read them; (R02.2) directory guard as sibling agreement: every byte-I/O method of the file type that touches the content blob (read, write, truncate) has an IsDir() guard before the blob access whose taken edge returns an ErrIsDir-class error; (R02.3) live size: in the methods that compare an offset/size parameter with the file size, the size is the length of the content loaded in that call (a Size() of the record cached at open time is flagged), so every handle sees the current size; (R02.4) validate before mutate: on every path of the write and truncate methods the first content mutator is dominated by the rejection of a negative offset/size. (R02.5) a write method that redirects its offset to the content length under the O_APPEND test hands the redirected offset back (result or handle field), so the handle's position ends at the new end of file; (R02.6) every content mutation of a write is dominated by 'the data is not empty' — an empty write beyond the end must not grow the file; (R02.7) the handle's Stat loads the content before returning a regular file's info, so Size() is current; (R02.8) a method that passes its own offset parameter to the write primitive (a positioned write) does so only below a test of the append flag whose other side returns an error — os.File refuses WriteAt on an O_APPEND handle, and silently appending instead would put the bytes somewhere else than asked. NOT claimed: transferred bytes, offsets, EOF exactness, zero fill, O_APPEND placement, coherence beyond R02.3.")
+	c.Explain("Bytes, offsets and EOF timing are values and not decidable statically. Decided mechanisms: (R02.1) access-mode capability: no method of the read-only handle wrapper reaches a content mutator (blob.Set/Grow/Truncate), no method of the write-only wrapper reaches a content reader (blob.View/Slice), over the static call graph — a read-only handle can never change contents, a write-only handle can never read them; (R02.2) directory guard as sibling agreement: every byte-I/O method of the file type that touches the content blob (read, write, truncate) has an IsDir() guard before the blob access whose taken edge returns an ErrIsDir-class error; (R02.3) live size: in the methods that compare an offset/size parameter with the file size, the size is the length of the content loaded in that call (a Size() of the record cached at open time is flagged), so every handle sees the current size; (R02.4) validate before mutate: on every path of the write and truncate methods the first content mutator is dominated by the rejection of a negative offset/size. (R02.5) a write method that redirects its offset to the content length under the O_APPEND test hands the redirected offset back (result or handle field), so the handle's position ends at the new end of file; (R02.6) every content mutation of a write is dominated by 'the data is not empty' — an empty write beyond the end must not grow the file; (R02.7) the handle's Stat loads the content before returning a regular file's info, so Size() is current; (R02.8) a method that passes its own offset parameter to the write primitive (a positioned write) does so only below a test of the append flag whose other side returns an error — os.File refuses WriteAt on an O_APPEND handle, and silently appending instead would put the bytes somewhere else than asked; (R02.9 = R01.6) the flag reaches the handle on every path of OpenFile; (R02.10) in Seek every store into the handle's offset is dominated by the rejection of a negative value of what is stored — a failed Seek must leave the position unchanged; (R02.11) the in-memory store's set stores the contents blob it is given itself, not a copy: handles of one file see each other's writes because they share that blob. NOT claimed: transferred bytes, offsets, EOF exactness, zero fill, O_APPEND placement, coherence beyond R02.3.")
 	c.Assume("the static call graph is complete for these wrappers (they call the inner *file statically)")
 	c.RuleDoc("R02.1", "access-mode wrappers cannot reach forbidden content operations")
 	c.RuleDoc("R02.2", "directory guard on every byte-I/O method")
@@ -26,6 +26,9 @@ func runC02(c *core.Ctx) {
 	c.RuleDoc("R02.4", "negative offset/size rejected before the first mutation")
 	c.RuleDoc("R02.5", "an offset redirected by O_APPEND is handed back to the caller that advances the handle")
 	c.RuleDoc("R02.6", "an empty write mutates nothing")
+	c.RuleDoc("R02.9", "the flag OpenFile was called with reaches the handle on every path (= R01.6)")
+	c.RuleDoc("R02.10", "Seek stores the new offset only after rejecting a negative one")
+	c.RuleDoc("R02.11", "the in-memory store keeps the blob it is given (handles share it)")
 	c.RuleDoc("R02.8", "a positioned write refuses a handle opened with O_APPEND")
 	c.RuleDoc("R02.7", "a handle's Stat loads the content, so the size it reports is current")
 	for _, p := range c.Progs {
@@ -39,6 +42,11 @@ func runC02(c *core.Ctx) {
 		r02Methods(c, p, fileT)
 		r02StatLive(c, p, fileT)
 		r02PositionedAppend(c, p, fileT)
+		if sh := findKVShape(p); sh != nil {
+			r01FlagReachesHandle(c, p, sh, "R02.9")
+		}
+		r02SeekValidates(c, p, fileT)
+		r02StoreKeepsBlob(c, p)
 	}
 	c.Floor("R02.1", 2)
 	c.Floor("R02.2", 3)
@@ -48,6 +56,9 @@ func runC02(c *core.Ctx) {
 	c.Floor("R02.6", 1)
 	c.Floor("R02.7", 1)
 	c.Floor("R02.8", 1)
+	c.Floor("R02.9", 1)
+	c.Floor("R02.10", 1)
+	c.Floor("R02.11", 1)
 }
 
 func blobFuncs(p *load.Program, names ...string) map[*ssa.Function]bool {
@@ -617,4 +628,91 @@ func r02PositionedAppend(c *core.Ctx, p *load.Program, fileT *types.Named) {
 				fmt.Sprintf("%s passes its offset to the write primitive without testing the append flag: on a handle opened with O_APPEND the bytes are appended instead of written at the offset asked for, and the call reports success — os.File refuses WriteAt on such a handle", fname(fn)))
 		})
 	}
+}
+
+// r02SeekValidates (R02.10)
+func r02SeekValidates(c *core.Ctx, p *load.Program, fileT *types.Named) {
+	fn := methodsOf(p, fileT)["Seek"]
+	if fn == nil || fn.Blocks == nil {
+		c.Hard("anchor: keyvalue.file.Seek")
+		return
+	}
+	recv := recvParam(fn)
+	ord := ordinals{}
+	ssax.Instrs(fn, func(ins ssa.Instruction) {
+		st, ok := ins.(*ssa.Store)
+		if !ok {
+			return
+		}
+		fa, ok := st.Addr.(*ssa.FieldAddr)
+		if !ok || fa.X != ssa.Value(recv) || ssax.FieldName(fa) != "offset" {
+			return
+		}
+		key := typeKey(fileT) + ".Seek|" + ord.next("offset-store")
+		v := st.Val
+		nonNeg := false
+		for _, f := range ssax.FactsAtInstr(st) {
+			bo, ok := f.Cond.(*ssa.BinOp)
+			if !ok {
+				continue
+			}
+			zeroY := func() bool { k, ok := ssax.ConstInt(bo.Y); return ok && k == 0 }
+			if bo.X == v && zeroY() {
+				if (bo.Op == token.LSS && !f.Val) || (bo.Op == token.GEQ && f.Val) {
+					nonNeg = true
+				}
+			}
+		}
+		c.Check(nonNeg, "R02.10", key, p.Pos(st.Pos()), "the stored offset was tested non-negative on this path",
+			fmt.Sprintf("%s stores the new offset before (or without) rejecting a negative one: a Seek that fails with 'negative position' leaves the handle at that negative offset, and the next Read/Write through it fails — os.File leaves the position unchanged", fname(fn)))
+	})
+}
+
+// r02StoreKeepsBlob (R02.11)
+func r02StoreKeepsBlob(c *core.Ctx, p *load.Program) {
+	set := p.Method("mem", "store", "set")
+	if set == nil || set.Blocks == nil {
+		c.Hard("anchor: mem.(*store).set")
+		return
+	}
+	var blobP *ssa.Parameter
+	for _, prm := range set.Params {
+		if hasMethods(prm.Type(), "Len", "Bytes") {
+			blobP = prm
+		}
+	}
+	if blobP == nil {
+		c.Hard("anchor: mem.(*store).set has no blob parameter")
+		return
+	}
+	key := "mem.store.set|keeps-the-blob"
+	kept, other := false, ""
+	ssax.Instrs(set, func(ins ssa.Instruction) {
+		st, ok := ins.(*ssa.Store)
+		if !ok {
+			return
+		}
+		fa, ok := st.Addr.(*ssa.FieldAddr)
+		if !ok || !hasMethods(st.Val.Type(), "Len", "Bytes") {
+			return
+		}
+		_ = fa
+		isRecordsOwn := func(v ssa.Value) bool {
+			// the record's own blob: the first result of Data() invoked on the record parameter
+			if ex, ok := v.(*ssa.Extract); ok && ex.Index == 0 {
+				if cl, ok := ex.Tuple.(*ssa.Call); ok && cl.Call.IsInvoke() && cl.Call.Method.Name() == "Data" {
+					_, isParam := cl.Call.Value.(*ssa.Parameter)
+					return isParam
+				}
+			}
+			return false
+		}
+		if st.Val == ssa.Value(blobP) || isRecordsOwn(st.Val) {
+			kept = true
+		} else if _, isConst := st.Val.(*ssa.Const); !isConst {
+			other = p.Pos(st.Pos())
+		}
+	})
+	c.Check(kept && other == "", "R02.11", key, p.Pos(set.Pos()), "the record's data is the blob passed in (the contents argument or the source record's own Data())",
+		fmt.Sprintf("mem.(*store).set stores something else than the contents blob it was given (%s): the record no longer shares the blob that open handles mutate in place, so a handle opened between two writes of another handle keeps reading the old bytes and size", other))
 }
